@@ -409,11 +409,12 @@ def role_agreement(ctx, rid, rels, func_filter=None, what=""):
                     for i, a in enumerate(n.args):
                         if not isinstance(a, ast.Name) or i >= len(params):
                             continue
-                        if a.id == params[i]:
+                        if _stem_eq(a.id, params[i]):
                             matched = True
                             continue
-                        if a.id in params:
-                            j = params.index(a.id)
+                        hit = [p_ for p_ in params if _stem_eq(a.id, p_)]
+                        if hit:
+                            j = params.index(hit[0])
                             if j < len(n.args) and isinstance(n.args[j], ast.Name) and n.args[j].id != params[j]:
                                 ctx.bad(rid, n, f"arguments `{a.id}` and `{n.args[j].id}` are passed in each other's position to {cq}({', '.join(params)}){what}",
                                         construct=short(n, 80), detail={"callee": cq})
